@@ -51,9 +51,19 @@ def _linecov_install():
     except ValueError:
         return  # already installed in this process (fork of an instrumented parent)
 
+    d = os.environ["VERIF_LINECOV"]
+    os.makedirs(d, exist_ok=True)
+    fh = {}
+
     def on_line(code, line):
         if code.co_filename.startswith(root):
-            _LINES.add((code.co_filename[len(root):], line))
+            # write-through, one file per process: checks that fork a child per run leave through os._exit
+            pid = os.getpid()
+            if pid not in fh:
+                fh.clear()
+                fh[pid] = open(os.path.join(d, f"{pid}.txt"), "a")  # noqa: SIM115
+            fh[pid].write(f"{code.co_filename[len(root):]}:{line}\n")
+            fh[pid].flush()
         return mon.DISABLE
 
     mon.register_callback(mon.COVERAGE_ID, mon.events.LINE, on_line)
@@ -62,7 +72,7 @@ def _linecov_install():
 
 def _linecov_flush():
     global _FLUSHED  # noqa: PLW0603
-    d = os.environ.get("VERIF_LINECOV")
+    d = None  # superseded by the write-through in on_line
     if not d or len(_LINES) == _FLUSHED:
         return
     os.makedirs(d, exist_ok=True)
